@@ -29,7 +29,7 @@ def kind_scope(*mods):
 
 PROPS = {
     "C10": {
-        "rules": [r_panic.run],
+        "rules": [r_panic.run, r_panic.run_errprop],
         "explanation": "PANIC: every potential panic or silent-wrap site (assert terminators for "
                        "bounds/overflow/division/shift, calls to unwrap/expect/panic!/assert!/"
                        "indexing/copy_from_slice/chunks/..., narrowing `as` casts) in the "
@@ -40,7 +40,10 @@ PROPS = {
                        "guarded subtraction, memory-bounded arithmetic, clamp before cast) or by "
                        "an audited table entry whose guard requirement is re-verified (MAPLEN "
                        "holds, category id bounded before CharInfo::new, empty model rejected, "
-                       "feature-span reset present).",
+                       "feature-span reset present). "
+                       "ERRPROP: every fallible call on the builder paths is consumed by `?`, "
+                       "returned, converted or unwrapped (then audited) - never dropped or "
+                       "defaulted.",
         "level_text": "Static enumeration and discharge of panic sites: totality of the parsers "
                       "for every input, up to the audited table and opaque dependencies. The "
                       "clause `accepted => tokenizes safely` is a value invariant of the lattice "
